@@ -89,3 +89,9 @@ claim("C02",
       "Decides that every CNAME, A, AAAA and HTTPS answer record is checked with a value from that record (both hint kinds; the hint checker reports only filtered results), that the loop covers the whole answer section and is left early only on an error or a filtered record, that a filtered record saves the original response before replacing the delivered one, that exactly the four documented result reasons skip response filtering, that it runs exactly under protection-on / from-upstream / filtering-enabled, and that the from-upstream flag is set to true after every successful resolution. "
       "Rule matching on names and IP literals and per-record allow overrides are urlfilter semantics and not decided.",
       "DESIGN.md §5 C02")
+
+claim("C06",
+      "loop-variant recognition (visited-set idiom) from SSA loop structure and value identity, provenance of appended addresses, who-may-write enumeration, must-pass ordering for question save/restore (static analysis)",
+      "Decides termination of rewrite evaluation by a syntactic ranking argument (every iteration of the CNAME chase adds the very host it continues with to a set created outside the loop, a seen host leaves the loop, the table is fixed under the read lock, helper loops are counted), that answered addresses come only from the IP field of entries found for the finally resolved host with the requested type, that the original question is saved before renaming and restored with the CNAME prepended, that a table match yields the Rewritten reason which ends host checking, and that entries enter the table only normalised and are never edited in place. "
+      "The precedence relation itself (exact over wildcard, most specific wildcard, CNAME over address) is comparator arithmetic and not decided.",
+      "DESIGN.md §5 C06")
